@@ -50,16 +50,17 @@ func (m *scripted) Forward(ctx ml.Context, batch input.Batch) (ml.Tensor, error)
 	toksF := batch.Inputs.(*fakeTensor).data
 	n := len(toksF)
 	rec := fwdRec{Pos: append([]int32{}, batch.Positions...), Seqs: append([]int{}, batch.Sequences...), Outs: append([]int32{}, batch.Outputs...)}
+	// multimodal entries carry their content (an int32 code >= 1000) in the side list; it takes the place of the token
+	eff := make([]int32, 0, n)
 	for _, f := range toksF {
-		rec.Toks = append(rec.Toks, int32(f))
+		eff = append(eff, int32(f))
 	}
-	// multimodal entries carry their content in the side list; fold it into the token value the cache stores
-	eff := append([]int32{}, rec.Toks...)
 	for _, mm := range batch.Multimodal {
 		if v, ok := mm.Multimodal.(int32); ok {
 			eff[mm.Index] = v
 		}
 	}
+	rec.Toks = eff
 	cache := m.Config().Cache
 	rec.Vis = make([][][2]int, n)
 	if cache != nil {
@@ -113,6 +114,35 @@ func (m *scripted) Forward(ctx ml.Context, batch input.Batch) (ml.Tensor, error)
 	}
 	m.trace = append(m.trace, rec)
 	return ctx.FromFloatSlice(logits, int(m.vocab), len(batch.Outputs))
+}
+
+// EncodeMultimodal / PostTokenize (model.MultimodalProcessor): an "image" is two bytes (v, n); it becomes one input
+// carrying the code 1000+100*(n-1)+v with SameBatch n-1, followed by n-1 placeholder tokens that must be evaluated in
+// the same batch.
+const placeholderTok = 24
+
+func (m *scripted) EncodeMultimodal(ctx ml.Context, data []byte) (any, error) {
+	if len(data) != 2 || data[1] < 1 || data[1] > 9 {
+		return nil, errors.New("scripted image: want (value, size 1..9)")
+	}
+	return int32(1000 + 100*(int32(data[1])-1) + int32(data[0])), nil
+}
+
+func (m *scripted) PostTokenize(inputs []input.Input) ([]input.Input, error) {
+	var out []input.Input
+	for _, in := range inputs {
+		code, ok := in.Multimodal.(int32)
+		if !ok {
+			out = append(out, in)
+			continue
+		}
+		sb := int((code - 1000) / 100)
+		out = append(out, input.Input{Multimodal: code, MultimodalHash: in.MultimodalHash, SameBatch: sb})
+		for i := 0; i < sb; i++ {
+			out = append(out, input.Input{Token: placeholderTok})
+		}
+	}
+	return out, nil
 }
 
 // text: token t <-> letter 'a'+t
